@@ -89,6 +89,23 @@ def mutations(rng, tok, key, alg, pool, dense):
     yield ("protected not json", dict(tok, protected=G.b64u(b"nope")), None, key, False, False)
     yield ("protected absent", {k: v for k, v in tok.items() if k != "protected"}, None, key, False, None)
     yield ("header not object", dict(tok, header=5), None, key, False, False)
+    if isinstance(tok.get("header"), dict):
+        # the unprotected header is not covered by the signature: anyone can strip it; without it (and with a key that
+        # declares no algorithm) nothing names an algorithm any more unless the protected header does
+        nohdr = {k: v for k, v in tok.items() if k != "header"}
+        named = "alg" in (G.merged_header(nohdr) or {})
+        yield ("unprotected header removed", nohdr, None, key, False, None if named else False)
+        yield ("alg removed from the unprotected header", dict(tok, header={k: v for k, v in tok["header"].items() if k != "alg"}), None, key, False, None if named else False)
+    if key.get("kty") == "EC" and alg.startswith("ES"):
+        # (r, s) = (Qx mod n, Qx mod n) is a valid ECDSA signature of the all-zero digest under ANY key: it must never
+        # verify over a real message (a verifier that lost its digest would accept it)
+        import ecmath
+        n_ = ecmath.CURVES[key["crv"]]["n"]
+        w = len(G.b64d(key["x"]))
+        r_ = int.from_bytes(G.b64d(key["x"]), "big") % n_
+        forged = G.b64u(r_.to_bytes(w, "big") * 2)
+        yield ("signature valid for the all-zero digest", dict(tok, signature=forged), None, key, False, False)
+        yield ("signature valid for the all-zero digest, public key", dict(tok, signature=forged), None, K.public(key), False, False)
     # 4. key edits
     for m in ("k", "n", "e", "x", "y", "d"):
         if m in key and m != "d":
